@@ -424,9 +424,13 @@ nni_msg_pull_up(nni_msg *m)
 	}
 
 	// At this point, we have a unique instance of the message.
-	// We also know that we have sufficient space in the message,
-	// so this insert operation cannot fail.
-	nni_msg_insert(m, nni_msg_header(m), nni_msg_header_len(m));
+	// The chunk has room for the header, but the insert may still
+	// have to reallocate (too little headroom and fewer than 8 spare
+	// bytes), and that can fail: the header must not be dropped then.
+	if (nni_msg_insert(m, nni_msg_header(m), nni_msg_header_len(m)) !=
+	    0) {
+		return (NULL);
+	}
 	nni_msg_header_clear(m);
 	return (m);
 }
